@@ -52,6 +52,8 @@ func runC09(c *Ctx) {
 	c.L.Floor("setter-records-arguments", 2, "4 parameters of the aligner setters (floor = half)")
 	c.checkMatrixScans("matrix-scan-full", "fillMatrix_SW", "backTrack")
 	c.L.Floor("matrix-scan-full", 2, "fill loops and the last-row scan (floor = half)")
+	c.checkStaleState("stale-iteration-state", "align")
+	c.L.Floor("stale-iteration-state", 2, "two listed state machines of package align plus the scope line")
 }
 
 func isUint8(t types.Type) bool {
